@@ -25,6 +25,7 @@
     html_api_total
     xml_qname_of_expat_name_partial xml_plain_name xml_brace_uri_loses_its_brace
     html_event_kinds
+    entity_table_resolves xml_html_entities_resolve merged_forest_is_normal
 -/
 import Genshi.Lemmas.ParseHtml
 import Genshi.Lemmas.ParseXml
@@ -335,6 +336,11 @@ theorem xml_layer_tree_merged (doc : List XNode) (hwf : wfList doc = true)
     xmlParse (reads.map XmlReadG.chunk) close = (flattenList (mergeForest (toNodesList doc)), none) := by
   rw [xml_layer_tree doc hwf reads close h, coalesce_flattenList]
 
+/-- … and that forest is in normal form: no two text leaves are adjacent, at any depth -/
+theorem merged_forest_is_normal (ns : List Node) :
+    noAdjLeavesList (mergeForest ns) = true ∧ coalesce (flattenList ns) = flattenList (mergeForest ns) :=
+  ⟨mergeForest_normal ns, coalesce_flattenList ns⟩
+
 /-- comparing event streams is comparing trees: two well-formed forests with the same events are equal -/
 theorem events_determine_tree (a b : List Node) (ha : okList a = true) (hb : okList b = true)
     (h : flattenList a = flattenList b) : a = b :=
@@ -452,6 +458,25 @@ theorem xml_undefined_entity_position (name : Str) (l c : Int) (pre : List (Item
         | error e => simp [ho] at hpre
         | ok evs => simp only [ho] at hpre; exact ih hpre
       | _ => simp only [firstFailure] at hpre; simp only [List.cons_append, firstFailure]; exact ih hpre
+
+/-- over the *generated* entity table (`entities.name2codepoint` of the running interpreter): every name
+    is found with its own code point (no name is shadowed by an earlier row) and every code point is a
+    Unicode scalar value -/
+theorem entity_table_resolves :
+    ∀ p ∈ Genshi.Gen.Parse.entities, lookupEntity p.1 = some p.2 ∧ p.2 < 0x110000 ∧ ¬ (0xD800 ≤ p.2 ∧ p.2 ≤ 0xDFFF) := by
+  decide +kernel
+
+/-- hence every HTML entity reference that reaches the default handler (`&name;`) becomes the one
+    character it names, in both layers -/
+theorem xml_html_entities_resolve (p : Str × Nat) (hp : p ∈ Genshi.Gen.Parse.entities) (l c : Int) :
+    handleOther ('&' :: p.1 ++ [';']) l c = .ok [.text [Char.ofNat p.2] false] ∧
+    entityrefText p.1 = [Char.ofNat p.2] := by
+  have h := (entity_table_resolves p hp).1
+  have hi : innerName ('&' :: p.1 ++ [';']) = p.1 := by simp [innerName]
+  constructor
+  · simp only [List.cons_append] at hi ⊢
+    simp only [handleOther, hi, h]
+  · simp only [entityrefText, h]
 
 /-- an HTML entity handed to the default handler becomes character data -/
 theorem xml_html_entity_is_text :
